@@ -4,9 +4,10 @@ From Coq Require Import String.
 From FA Require Import model.Base model.Rabin proofs.RabinProofs.
 Open Scope string_scope.
 
-(** every table entry is eight steps of the specification's bit-serial division *)
+(** every table entry is eight steps of the specification's bit-serial division
+    ([tbl i] is by definition [iter 8 shift1 i], see model/Rabin.v) *)
 Theorem C14_table : forall i, 0 <= i < 256 ->
-  nth (Z.to_nat i) fp_table 0 = iter 8 shift1 i.
+  nth (Z.to_nat i) fp_table 0 = tbl i.
 Proof. exact table_ok. Qed.
 Print Assumptions C14_table.
 
